@@ -48,15 +48,19 @@ Proof. pose proof (varint_nonempty n). destruct (varint n); [congruence | cbn; l
 (* ---- field lists ---- *)
 Definition field_ok (f : field) : bool :=
   match f with
-  | (num, WVarint v) => (0 <? num) && (num <? 2305843009213693952) && (v <? vmax)
-  | (num, WBytes b) => (0 <? num) && (num <? 2305843009213693952) && (lenN b <? vmax)
+  | (num, WVarint v) => (0 <? num) && (num <? 536870912) && (v <? vmax)
+  | (num, WBytes b) => (0 <? num) && (num <? 536870912) && (lenN b <? vmax)
+  | (num, WFixed64 b) => (0 <? num) && (num <? 536870912) && (length b =? 8)%nat
+  | (num, WFixed32 b) => (0 <? num) && (num <? 536870912) && (length b =? 4)%nat
   end.
 
 Lemma enc_field_length_pos f : (1 <= length (enc_field f))%nat.
 Proof.
-  destruct f as [num [v|b]]; cbn [enc_field]; rewrite app_length.
+  destruct f as [num [v|b|b|b]]; cbn [enc_field]; rewrite app_length.
   - pose proof (varint_length_pos (8 * num)). lia.
   - pose proof (varint_length_pos (8 * num + 2)). lia.
+  - pose proof (varint_length_pos (8 * num + 1)). lia.
+  - pose proof (varint_length_pos (8 * num + 5)). lia.
 Qed.
 
 Lemma enc_fields_length fs : (length fs <= length (enc_fields fs))%nat.
@@ -80,19 +84,33 @@ Proof.
     { pose proof (enc_field_length_pos f) as L. apply (f_equal (@length byte)) in Ebs.
       rewrite app_length in Ebs. cbn in Ebs. lia. }
     rewrite <- Ebs. clear Ebs b0 t0.
-    destruct f as [num [v|b]]; cbn [field_ok enc_field] in *.
+    assert (Hnum : forall num, 0 < num -> num < 536870912 -> (num =? 0) || (536870912 <=? num) = false).
+    { intros num A B. destruct (N.eqb_spec num 0); [lia|]. destruct (N.leb_spec 536870912 num); [lia | reflexivity]. }
+    destruct f as [num [v|b|b|b]]; cbn [field_ok enc_field] in *.
     + apply andb_prop in Hfo as [Hfo Hv]. apply andb_prop in Hfo as [Hn0 Hn1].
       rewrite <- !app_assoc, decode_varint_ok by (unfold vmax; lia).
       replace (8 * num / 8) with num by lia. replace ((8 * num) mod 8) with 0 by lia.
-      destruct (N.eqb_spec num 0); [lia|]. cbn [N.eqb].
+      rewrite Hnum by lia. cbn [N.eqb].
       rewrite decode_varint_ok by lia. rewrite IH. reflexivity.
     + apply andb_prop in Hfo as [Hfo Hv]. apply andb_prop in Hfo as [Hn0 Hn1].
       rewrite <- !app_assoc, decode_varint_ok by (unfold vmax; lia).
       replace ((8 * num + 2) / 8) with num by lia. replace ((8 * num + 2) mod 8) with 2 by lia.
-      destruct (N.eqb_spec num 0); [lia|]. cbn [N.eqb Pos.eqb].
+      rewrite Hnum by lia. cbn [N.eqb Pos.eqb].
       rewrite decode_varint_ok by lia.
       rewrite lenN_app. destruct (N.ltb_spec (lenN b + lenN (flat_map enc_field fs)) (lenN b)); [lia|].
       unfold lenN at 1 2. rewrite Nat2N.id, firstn_app_exact, skipn_app_exact, IH. reflexivity.
+    + apply andb_prop in Hfo as [Hfo Hv]. apply andb_prop in Hfo as [Hn0 Hn1]. apply Nat.eqb_eq in Hv.
+      rewrite <- !app_assoc, decode_varint_ok by (unfold vmax; lia).
+      replace ((8 * num + 1) / 8) with num by lia. replace ((8 * num + 1) mod 8) with 1 by lia.
+      rewrite Hnum by lia. cbn [N.eqb Pos.eqb].
+      rewrite app_length, Hv. cbn [Nat.ltb Nat.leb plus].
+      rewrite <- Hv, firstn_app_exact, skipn_app_exact, IH. reflexivity.
+    + apply andb_prop in Hfo as [Hfo Hv]. apply andb_prop in Hfo as [Hn0 Hn1]. apply Nat.eqb_eq in Hv.
+      rewrite <- !app_assoc, decode_varint_ok by (unfold vmax; lia).
+      replace ((8 * num + 5) / 8) with num by lia. replace ((8 * num + 5) mod 8) with 5 by lia.
+      rewrite Hnum by lia. cbn [N.eqb Pos.eqb].
+      rewrite app_length, Hv. cbn [Nat.ltb Nat.leb plus].
+      rewrite <- Hv, firstn_app_exact, skipn_app_exact, IH. reflexivity.
 Qed.
 
 Lemma parse_ok fs : forallb field_ok fs = true -> parse (enc_fields fs) = Some fs.
@@ -104,20 +122,20 @@ Qed.
 (* ---- accessors over concatenations ---- *)
 Lemma last_varint_app k a b acc : last_varint k (a ++ b) acc = last_varint k b (last_varint k a acc).
 Proof.
-  revert acc; induction a as [|[j [v|x]] a IH]; intro acc; cbn [app last_varint]; [reflexivity | apply IH | apply IH].
+  revert acc; induction a as [|[j w] a IH]; intro acc; [reflexivity|]. destruct w; cbn [app last_varint]; apply IH.
 Qed.
 Lemma last_bytes_app k a b acc : last_bytes k (a ++ b) acc = last_bytes k b (last_bytes k a acc).
 Proof.
-  revert acc; induction a as [|[j [v|x]] a IH]; intro acc; cbn [app last_bytes]; [reflexivity | apply IH | apply IH].
+  revert acc; induction a as [|[j w] a IH]; intro acc; [reflexivity|]. destruct w; cbn [app last_bytes]; apply IH.
 Qed.
 Lemma all_bytes_app k a b : all_bytes k (a ++ b) = all_bytes k a ++ all_bytes k b.
 Proof.
-  induction a as [|[j [v|x]] a IH]; cbn [app all_bytes]; [reflexivity | apply IH |].
+  induction a as [|[j w] a IH]; [reflexivity|]. destruct w; cbn [app all_bytes]; try apply IH.
   destruct (j =? k); [cbn [app]; f_equal|]; apply IH.
 Qed.
 Lemma last_from_app a b acc : last_from (a ++ b) acc = last_from b (last_from a acc).
 Proof.
-  revert acc; induction a as [|[j [v|x]] a IH]; intro acc; cbn [app last_from]; [reflexivity | apply IH | apply IH].
+  revert acc; induction a as [|[j w] a IH]; intro acc; [reflexivity|]. destruct w; cbn [app last_from]; apply IH.
 Qed.
 
 (* ---- BlockRequest ---- *)
@@ -355,7 +373,7 @@ Proof.
                forallb field_ok (opt_bytes_field j o) = true).
   { intros j o J0 J8 Hl. destruct o as [[|x r]|]; try reflexivity.
     cbn [opt_bytes_field forallb field_ok]. rewrite Hl.
-    destruct (N.ltb_spec 0 j); [|lia]. destruct (N.ltb_spec j 2305843009213693952); [reflexivity | lia]. }
+    destruct (N.ltb_spec 0 j); [|lia]. destruct (N.ltb_spec j 536870912); [reflexivity | lia]. }
   rewrite bd_fields_eq, !forallb_app.
   repeat (apply andb_true_intro; split).
   - apply Ho; [lia | lia |]. apply Nat.eqb_eq in Hh. unfold lenN, vmax. rewrite Hh. reflexivity.
